@@ -135,6 +135,30 @@ func c17(c *Ctx) {
 			r.Fail("ERR", fkey(f)+"/delete-error-propagates", c.Pos(f.Pos()), "no Client.Delete call found")
 		}
 	}
+	if f := c.Fn(migrationPkg+"/reservation", "interpreterImpl", "GetReservation"); f != nil {
+		r.Rule("ERR: in the reservation interpreter's GetReservation the error of the last read (the API reader's Get behind a cache miss, or the cache Get itself) is what the function returns: with every Get failing no nil error is returned (a reservation that exists nowhere must not come back as an empty object: the re-check before the eviction relies on the NotFound)")
+		f0 := an.Facts{}
+		n := 0
+		for _, cl := range an.Calls(f, false) {
+			if cl.Common().IsInvoke() && cl.Common().Method.Name() == "Get" && cl.Value() != nil {
+				f0[cl.Value()] = an.NonNil
+				n++
+			}
+			if an.ShortCallee(cl.Common()) == "IsNotFound" && cl.Value() != nil {
+				f0[cl.Value()] = an.True
+			}
+		}
+		reach := an.Explore(f, nil, f0, nil)
+		bad := ""
+		for _, ret := range reach.Returns() {
+			for _, alt := range reach.Alts(ret) {
+				if reach.EvalAlt(alt, 1) != an.NonNil {
+					bad = c.InstrPos(ret)
+				}
+			}
+		}
+		r.Check(n >= 1 && bad == "", "ERR", fkey(f)+"/missing-everywhere=>error", c.Pos(f.Pos()), "a reservation found nowhere is an error", "with the reservation missing from the cache and from the API server GetReservation can return a nil error (at "+bad+"): the caller sees an empty reservation and the eviction is not vetoed")
+	}
 	if f := c.Fn(migrationPkg, "Reconciler", "evictPod"); f != nil {
 		c17evict(c, f)
 	}
